@@ -66,8 +66,10 @@ class _File:
 
     def close(self):
         if not self.closed:
-            self.closed = True
-            self.fs._op(("close", self.path))
+            try:
+                self.fs._op(("close", self.path))
+            finally:
+                self.closed = True
             if not self.fs.frozen:
                 self.synced = len(self.fs.inodes[self.ino])
                 self.fs.handles.discard(self)
